@@ -200,14 +200,15 @@ def build_body(spec: dict[str, Any]) -> tuple[bytes, bytes | None, str | None]:
 
 
 def _produced_before_failure(codec: str, wire: bytes, stop_after: int) -> int:
-    """Decoded bytes an incremental decoder hands over before it fails / runs dry (counted in 256-byte steps, early exit)."""
+    """Decoded bytes an incremental decoder hands over before it fails / runs dry (byte by byte — an exception loses the
+    output of the call that raised, and the server's own sentinel read is exact — with early exit past the cap)."""
     produced = 0
     try:
         if codec == "gzip":
             d = zlib.decompressobj(31)
             data = wire
             while produced <= stop_after:
-                c = d.decompress(data, 256)
+                c = d.decompress(data, 1)
                 produced += len(c)
                 data = d.unconsumed_tail
                 if d.eof or (not c and not data):
@@ -217,7 +218,7 @@ def _produced_before_failure(codec: str, wire: bytes, stop_after: int) -> int:
 
             with zstandard.ZstdDecompressor().stream_reader(wire) as rd:
                 while produced <= stop_after:
-                    c = rd.read(256)
+                    c = rd.read(1)
                     if not c:
                         break
                     produced += len(c)
@@ -262,6 +263,24 @@ def norm_token(ce: str | None) -> str:
 
 
 # ------------------------------------------------------------------------------------------------ one request
+
+
+class _Throttle:
+    """`ctx.fail` keeps 200 failures; keep at most 3 per key so a frequent known class cannot crowd out a new one."""
+
+    def __init__(self, ctx: Any) -> None:
+        self._ctx = ctx
+        self._n: dict[str, int] = {}
+
+    def fail(self, case: Any, key: str, what: str) -> None:
+        self._n[key] = self._n.get(key, 0) + 1
+        if self._n[key] <= 3:
+            self._ctx.fail(case, key, what)
+        else:
+            self._ctx.notes["failures_throttled"] = self._ctx.notes.get("failures_throttled", 0) + 1
+
+    def __getattr__(self, name: str) -> Any:
+        return getattr(self._ctx, name)
 
 
 def check_request(ctx: Any, apps: Apps, case: dict[str, Any], oracle: bool = True) -> None:
@@ -498,6 +517,7 @@ def _quiet() -> None:
 
 def run(ctx: Any) -> None:
     _quiet()
+    ctx = _Throttle(ctx)
     rng = ctx.rng
     thorough = ctx.tier == "thorough" or ctx.deep
     caps: list[int | None] = [None, 300, 300, 300, 4096, 4096, 4096, 4096, 70000]
@@ -536,7 +556,7 @@ def run(ctx: Any) -> None:
                             continue
                         check_request(ctx, apps, {"cap": cap, "decode": "both", "path": "/echo", "cl": "honest", "ce": codec,
                                                   "body": {"kind": "frame", "codec": codec, "fkind": fkind, "plain": {"pattern": "text", "n": n}}})
-        for _ in range(ctx.budget(1500, 30000)):
+        for _ in range(ctx.budget(1500, 60000)):
             check_request(ctx, apps, gen_case(rng, caps))
         flush(ctx, apps)
 
